@@ -51,8 +51,9 @@ ATTR_FACETS = ['', '(required)', '(nodefault)', '(field=f)', '(pattern="p")', '(
 _PRELUDE = ['enum e {            # doc of e', '  k = 0', '  "2d" = C1', '}']
 
 
-def attr_forms():
-    for t, ar, d, f in itertools.product(ATTR_TYPES, ATTR_ARITIES, ATTR_DEFAULTS, ATTR_FACETS):
+def attr_forms(arities=None):
+    for t, ar, d, f in itertools.product(ATTR_TYPES, ATTR_ARITIES if arities is None else arities, ATTR_DEFAULTS,
+                                         ATTR_FACETS):
         yield ' '.join(x for x in ('a : ' + t + ar, d, f) if x)
 
 
@@ -85,17 +86,18 @@ _SUPPORT = _PRELUDE + ['group h {', '  c : int   # doc of c', '}', 'element y {'
                        'group pqr {', '  p : int', '  q : int', '  r : int', '}']
 
 
-def structure_texts():
+def structure_texts(max_members=2):
+    two = max_members >= 2
     # element x with 0, 1, 2 members from the pool, every header
     for head in ELEMENT_HEADERS:
-        pools = [()] + [(m,) for m in ELEMENT_MEMBERS] + list(itertools.product(ELEMENT_MEMBERS, repeat=2))
+        pools = [()] + [(m,) for m in ELEMENT_MEMBERS] + (list(itertools.product(ELEMENT_MEMBERS, repeat=2)) if two else [])
         for ms in pools:
             lines = (_SUPPORT + ['group g {', '  b : int', '}', head + ' {   # doc of x', '  use pqr'] +
                      ['  ' + m for m in ms] + ['}'])
             yield '\n'.join(lines) + '\n'
     # group g with 0, 1, 2 members, used or not
     for head in GROUP_HEADERS:
-        pools = [()] + [(m,) for m in GROUP_MEMBERS] + list(itertools.product(GROUP_MEMBERS, repeat=2))
+        pools = [()] + [(m,) for m in GROUP_MEMBERS] + (list(itertools.product(GROUP_MEMBERS, repeat=2)) if two else [])
         for ms in pools:
             for used in (False, True):
                 lines = (_SUPPORT + [head + ' {   # doc of g', '  p : int', '  q : int', '  r : int'] +
@@ -202,6 +204,60 @@ def deviations(tokens, alphabet):
     for i in range(n + 1):
         for a in alphabet:
             yield tokens[:i] + [a] + tokens[i:]
+
+
+# ------------------------------------------------------------------ (f) spelling variants
+
+_SPELLING = {}
+
+
+def other_spelling(tok):
+    """A word has two spellings, bare (IDENT) and quoted (STRING); the grammar admits both for an enum key, a default
+    and a facet value, and only one of them everywhere else.  Returns the other spelling of a token, or None when the
+    token is not a word (punctuation, number, comment, line break, a string that is not an identifier)."""
+    if tok in _SPELLING:
+        return _SPELLING[tok]
+    quoted = len(tok) >= 2 and tok[0] == '"' and tok[-1] == '"'
+    word = tok[1:-1] if quoted else tok
+    out = None
+    try:
+        toks = R.lex(word)[0]
+        if len(toks) == 2 and toks[0].kind == 'ident' and toks[0].value == word:
+            out = word if quoted else '"%s"' % word
+    except R.LexError:
+        pass
+    _SPELLING[tok] = out
+    return out
+
+
+def respellings(tokens, order=1):
+    """Every token list obtained by writing 1..order of the word tokens in their other spelling."""
+    idx = [i for i, t in enumerate(tokens) if other_spelling(t) is not None]
+    for k in range(1, order + 1):
+        for comb in itertools.combinations(idx, k):
+            out = list(tokens)
+            for i in comb:
+                out[i] = other_spelling(tokens[i])
+            yield out
+
+
+SPELLING_ARITIES = ['', '[3]']
+
+
+def spelling_bases(thorough=False):
+    """(fixed head tokens, respelled focus tokens, fixed tail tokens, order) of every base text of space (f)."""
+    order = 2 if thorough else 1
+    for t in decl_texts():
+        yield [], tokens_of(t), [], order
+    for t in MINIMAL:
+        yield [], tokens_of(t), [], order
+    for t in structure_texts(max_members=2 if thorough else 1):
+        head, focus = split_support(t)
+        yield head, focus, [], 1
+    # attribute forms in element context: only the attribute's own line is respelled
+    for a in attr_forms(None if thorough else SPELLING_ARITIES):
+        head = tokens_of('\n'.join(_PRELUDE + ['element x {', '  n : id<ns>']) + '\n')
+        yield head, tokens_of('  ' + a), tokens_of('\n}\n'), 1
 
 
 # ------------------------------------------------------------------ (e) scaling families
@@ -411,6 +467,13 @@ def _rule_sites(text, L):
         if end != line:
             yield ('duplicate-enum-keyword', 'enum ' + name,
                    _E(inserts={end - 1: [[items[0][0] if items[0][0].isidentifier() else '"%s"' % items[0][0], '=', '0']]}))
+            # the same keyword repeated in the spelling the schema does not use for it
+            own = L.rows[line][0] if line < nlines and L.rows[line] else None
+            for spelled in ('"%s"' % items[0][0], items[0][0]):
+                if spelled != own and (spelled[0] == '"' or other_spelling(spelled) is not None):
+                    yield ('duplicate-enum-keyword', 'enum %s other spelling' % name,
+                           _E(inserts={end - 1: [[spelled, '=', '0']]}))
+                    break
             yield ('empty-enum', 'enum ' + name,
                    _E(edits={ln: [] for ln in range(line + 1, end)}))
     for g in groups:
